@@ -68,6 +68,17 @@ func TestC03TxAtomicity(t *testing.T) {
 			w.Learn(p, specs)
 			prev = p.Block
 		}
+		// in a quarter of the cases: a fee-delegating contract that owns about one fee, and a block biased towards
+		// fee-delegated calls with an amount that burn gas and fail
+		if rapid.IntRange(0, 3).Draw(t, "fdScene") == 0 {
+			fund := new(big.Int).Mul(big.NewInt(int64(rapid.SampledFrom([]int{1, 5, 6, 8, 20, 100}).Draw(t, "fdFund"))), big.NewInt(1e15))
+			nb, err := N.SetupFeeDelegationScene(w, prev, fund)
+			prev = nb
+			w.FDBias = err == nil
+			if err == nil {
+				rec.Label("fee-delegation-scene")
+			}
+		}
 		N.SwitchTo()
 		txs, specs, err := N.DrawCandidates(t, w, prev, 8)
 		if err != nil {
@@ -114,6 +125,17 @@ func TestC03TxAtomicity(t *testing.T) {
 			kind := out.Kind()
 			descs = append(descs, fmt.Sprintf("%s(u%d)=%s", sp.Kind, sp.From, kind))
 			classes[kind+":"+strings.SplitN(sp.Kind, "+", 2)[0]] = true
+			if kind != "success" && strings.HasPrefix(sp.Kind, "feedeleg") && w.FDBias {
+				// why fee-delegated calls of the scene do not succeed (distribution check of the generator)
+				why := "run-time failure"
+				if out.Err != nil {
+					why = out.Err.Error()
+					if len(why) > 60 {
+						why = why[:60]
+					}
+				}
+				rec.Label("scene feedeleg " + kind + ": " + why)
+			}
 			diffs := vnode.DiffDumps(dumpPrev, dump)
 			sender := types.ToAccountID(tx.GetBody().GetAccount())
 			supplyDelta := new(big.Int).Sub(dump.SumBalances(), dumpPrev.SumBalances())
